@@ -254,13 +254,17 @@ def _run_shard(exe, lines, env, timeout, args):
         n = min(len(got), len(lines) - i)
         i += n
         if i < len(lines):
-            # the driver died (or hung) on scenario i
-            outs[i] = {"crash": "driver rc=%s: %s" % (rc, se[-3000:]), "hang": rc == -100}
+            if rc == -100:
+                # wall-clock timeout of the whole shard: machine too slow, not evidence about the code.
+                # (Drivers detect a genuinely hanging scenario themselves with a CPU-time watchdog.)
+                raise InfraError("driver shard timed out after %ss (%d/%d scenarios done)" % (timeout, i, len(lines)))
+            # the driver died on scenario i
+            outs[i] = {"crash": "driver rc=%s: %s" % (rc, se[-3000:]), "hang": rc == 98}
             i += 1
     return outs
 
 
-def run_driver(exe, scenarios, *, shards=None, env=None, timeout=600, args=()):
+def run_driver(exe, scenarios, *, shards=None, env=None, timeout=1800, args=()):
     """scenarios: list of JSON-able values (one line each). Returns list of outputs."""
     lines = [json.dumps(s, separators=(",", ":")) for s in scenarios]
     if not lines:
@@ -314,7 +318,7 @@ def deep_diff(exp, act, path=""):
         if not isinstance(act, dict):
             return "%s: expected %r got %r" % (path, exp, act)
         for k, v in exp.items():
-            if k == "g":
+            if k in ("g", "amb"):
                 continue
             if k not in act:
                 return "%s.%s: missing in driver output (expected %r)" % (path, k, v)
@@ -370,6 +374,8 @@ def compare_histories(hists, outs, obs_key="o"):
         steps = o["obs"] if isinstance(o, dict) else o
         err = o.get("err") if isinstance(o, dict) else None
         for k, st in enumerate(h):
+            if isinstance(st.get(obs_key), dict) and st[obs_key].get("amb") == 1:
+                break   # the specification declares the outcome order-dependent from here on
             if k >= len(steps):
                 fails.append((i, k, "driver stopped early" + (": " + str(err) if err else ""))); break
             d = deep_diff(st.get(obs_key), steps[k], "step%d(%s)" % (k, st.get("a")))
